@@ -80,7 +80,7 @@ def run(seed, props, tier, wt=None):
     if rc != 0:
         print("patch does not apply:", out)
         return 2
-    env = {"VERIF_REPO": str(target), "VERIF_OUT": "/var/tmp/seed_out"} if wt else None
+    env = {"VERIF_REPO": str(target), "VERIF_OUT": f"/var/tmp/seed_out_{os.getpid()}"} if wt else None
     det = {"seed": seed.name, "tier": tier, "checks": {}, "target": str(target)}
     try:
         for p in props:
@@ -99,6 +99,8 @@ def run(seed, props, tier, wt=None):
             print(p, "exit", rc, viol, und[:2])
     finally:
         sh(f"git -C {target} checkout -- .")
+        if wt:
+            shutil.rmtree(f"/var/tmp/seed_out_{os.getpid()}", ignore_errors=True)
     det["detected_by"] = [p for p, c in det["checks"].items() if c["exit"] == 1]
     (seed / "detect.json").write_text(json.dumps(det, indent=1) + "\n")
     return 0
